@@ -64,7 +64,7 @@ def reduced_alphabet():
         if v not in out:
             out.append(v)
     # lexer-error spellings (must surface as CxxParseError with a location)
-    out += ["$", "09", "''", "'a", '"\\q"', "#if 1\n"]
+    out += ["$", "09", "''", "'a", '"\\q"', "#if 1\n", "\f", "\xa0"]  # incl. illegal characters that Python's str methods treat as white space
     seen, res = set(), []
     for s in out:
         if s not in seen and s not in (" ",):
@@ -74,7 +74,7 @@ def reduced_alphabet():
 
 
 CORE = ["x", "int", "*", "&", "(", ")", ",", ";", "{", "}", "const", "struct", "=", "7", "[", "]", "<", ">", "::", ":", "template", "operator", "~x", "public",
-        "namespace", "using", "enum", "friend", "...", "extern", '"s"', "typedef", "$"]
+        "namespace", "using", "enum", "friend", "...", "extern", '"s"', "typedef", "$", "\f"]
 
 
 def judge_tokens(toks):
@@ -196,6 +196,24 @@ BREAKERS = [
     ("static-parameter", "void f(static int p);", "always"),
     ("empty-block", "{ int v; }", "always"),
     ("incomplete-include", "#include", "always"),
+    # a closer of the wrong kind in every construct whose brackets the parser tracks
+    ("mismatched-in-declspec", "__declspec(a]) int v;", "always"),
+    ("mismatched-open-in-declspec", "__declspec([a) int v;", "always"),
+    ("mismatched-in-gcc-attribute", "__attribute__((a(])) int v;", "always"),
+    ("mismatched-in-alignas", "alignas(4]) int v;", "always"),
+    ("mismatched-in-call", "int v = f(1];", "always"),
+    ("mismatched-in-template-arg", "T<(1]> v;", "always"),
+    ("mismatched-in-default-arg", "void f(int a = (1]);", "always"),
+    ("mismatched-in-noexcept", "void f() noexcept(1]);", "always"),
+    ("mismatched-in-decltype", "decltype(1]) v;", "always"),
+    ("mismatched-in-enumerator", "enum E { A = (1] };", "always"),
+    ("mismatched-in-template-default", "template <int N = (1]> void f();", "always"),
+    ("mismatched-brace-in-array", "int v[2}];", "always"),
+    ("mismatched-in-alias", "using U = T<(1}>;", "always"),
+    ("mismatched-in-base", "struct D : B<(1]> {};", "always"),
+    ("illegal-formfeed-last", "int v;\f", "always"),
+    ("illegal-nbsp", "int\xa0v;", "always"),
+    ("illegal-vtab-then-blanks", "int v;\v  \n\n", "always"),
 ]
 
 
